@@ -799,3 +799,30 @@ def r11(rr, repo):
         for c in cmps:
             strict = isinstance(c.ops[0], ast.Gt)
             rr.ob("the 'nothing seen yet' value admits every file timestamp from 0 up", val < 0 or (val == 0 and not strict), mod, n, witness=f'old_timestamp = {val}, accepted iff {U(c)}', key='no-file-sentinel-below-zero')
+
+
+@rule('C13.R12', "every file that pruning drops from the list is really unlinked: both loops of prune_logfiles walk the (index, file) pairs of one enumerate() and unlink the FILE of each pair - an unlink that "
+                 "raises anything but FileNotFoundError is only logged there, so a loop that takes the pair for the file leaves the files on disk while the list and the byte count forget them")
+def r12(rr, repo):
+    mod, fn, _ = fn_paths(repo, 'prune_logfiles')
+    enums = {U(n.targets[0]) for n in walk_scope(fn) if isinstance(n, ast.Assign) and isinstance(n.value, ast.Call) and U(n.value.func) == 'enumerate' and isinstance(n.targets[0], ast.Name)}
+    loops = [n for n in walk_scope(fn) if isinstance(n, ast.For) and U(n.iter) in enums]
+    rr.floor('loops of prune_logfiles over the enumerated file list', len(loops), 2, mod, fn)
+    unl = 0
+    for lp in loops:
+        pair = isinstance(lp.target, ast.Tuple) and len(lp.target.elts) == 2 and all(isinstance(e, ast.Name) for e in lp.target.elts)
+        rr.ob('the loop takes each element of enumerate() apart as (index, file)', pair, mod, lp, witness=U(lp.target), key=f'prune-pair|{U(lp.target)}')
+        filevar = lp.target.elts[1].id if pair else (U(lp.target) if isinstance(lp.target, ast.Name) else None)
+        def innermost(c):
+            for a in ancestors(c):
+                if isinstance(a, ast.For) and a in loops:
+                    return a
+            return None
+        for c in [c for c in q.calls_in(lp, into_functions=False) if U(c.func) in ('os.unlink', 'os.remove') and innermost(c) is lp]:
+            unl += 1
+            rr.ob('what is unlinked is the path of the file of the pair', pair and U(c.args[0]) == f'{filevar}.path', mod, c, witness=U(c)[:60], key=f'prune-unlinks-file|{U(c.args[0])}')
+    rr.floor('unlink calls in the pruning loops', unl, 2, mod, fn)
+    nx = [c for c in q.calls_in(fn) if U(c.func) == 'next' and c.args and U(c.args[0]) in enums]
+    for c in nx:
+        par = parent(c)
+        rr.ob('the newest file (never pruned) is taken from the same pairs: next(..)[1]', isinstance(par, ast.Subscript) and U(par.slice) == '1', mod, c, witness=U(par)[:40] if par is not None else '', key='prune-newest-from-pair')
